@@ -162,6 +162,7 @@ func main() {
 	nsamples := flag.Int("samples", 24, "number of printed values in cases_gv.v")
 	noCoq := flag.Bool("no-coq", false, "skip the coqc steps")
 	verbose := flag.Bool("v", false, "list every case")
+	text := flag.Bool("text", false, "also report (information only) how the suite fares through the XML and JSON encodings")
 	flag.Parse()
 	if *seed == 0 {
 		*seed = 1
@@ -297,6 +298,16 @@ func main() {
 		}
 	}
 
+	if *text {
+		textFormats("the suite", suite)
+		var safe []any
+		for i, c := range plan {
+			c.Opts.TextSafe = true
+			safe = append(safe, c.Gen(h.NewRand(*seed).Fork(uint64(i)+1)))
+		}
+		textFormats("the suite generated with Opts.TextSafe", safe)
+	}
+
 	// ---- 3. the generated Coq files
 	genDir := filepath.Join(*verif, "coq", "gen")
 	workDir := filepath.Join(*verif, ".work", "gvcheck")
@@ -334,6 +345,80 @@ func main() {
 		os.Exit(1)
 	}
 	fmt.Println("gvcheck: OK")
+}
+
+// textFormats is information for the text-format properties (C04 / C18): the same suite,
+// with the triggers of the known binary findings removed, through XML and JSON. It does not
+// influence the exit status.
+func textFormats(what string, suite []any) {
+	type codec struct {
+		name string
+		enc  func(any) []byte
+		dec  func([]byte, any) error
+	}
+	for _, c := range []codec{{"XML", ttlv.MarshalXML, ttlv.UnmarshalXML}, {"JSON", ttlv.MarshalJSON, ttlv.UnmarshalJSON}} {
+		classes := map[string]int{}
+		example := map[string]string{}
+		for i, m := range suite {
+			m, _ = stripKnown(m)
+			cl := func() (cl string) {
+				defer func() {
+					if r := recover(); r != nil {
+						cl = "panic: " + firstWords(fmt.Sprint(r))
+					}
+				}()
+				mv := reflect.ValueOf(m)
+				b1 := c.enc(ptrTo(m))
+				dst := reflect.New(mv.Type())
+				if err := c.dec(b1, dst.Interface()); err != nil {
+					return "decode-error: " + errClass(err.Error())
+				}
+				if d := gv.Diff(mv, dst.Elem()); d != "" {
+					return "value-differs: " + lastField(d)
+				}
+				if !bytes.Equal(b1, c.enc(dst.Interface())) {
+					return "text-differs"
+				}
+				return "ok"
+			}()
+			classes[cl]++
+			if _, ok := example[cl]; !ok {
+				example[cl] = fmt.Sprintf("case %d %s", i, gv.Describe(m))
+			}
+		}
+		var ks []string
+		for k := range classes {
+			ks = append(ks, k)
+		}
+		sort.Slice(ks, func(i, j int) bool { return classes[ks[i]] > classes[ks[j]] })
+		fmt.Printf("INFO %s round trip of %s (not part of the verdict):\n", c.name, what)
+		for _, k := range ks {
+			fmt.Printf("    %4d  %s   (e.g. %s)\n", classes[k], k, example[k])
+		}
+	}
+}
+
+func errClass(s string) string {
+	// drop the variable parts of an error text
+	for _, sep := range []string{": \"", " \"", " 0x", " '"} {
+		if i := strings.Index(s, sep); i > 0 {
+			s = s[:i]
+		}
+	}
+	if len(s) > 70 {
+		s = s[:70]
+	}
+	return s
+}
+
+func lastField(d string) string {
+	if i := strings.Index(d, ":"); i > 0 {
+		d = d[:i]
+	}
+	if i := strings.LastIndex(d, "."); i >= 0 {
+		d = d[i:]
+	}
+	return d
 }
 
 func ptrTo(m any) any {
@@ -385,6 +470,12 @@ func casesSource(suite []any, plan []gv.Case, n int) (string, int) {
 		if !seenNote[c.Note] {
 			seenNote[c.Note] = true
 			picked[i] = true
+			idx = append(idx, i)
+		}
+	}
+	if n >= len(suite) {
+		idx = idx[:0]
+		for i := range suite {
 			idx = append(idx, i)
 		}
 	}
